@@ -5,7 +5,7 @@ import common
 
 LEAN_MODULES = ['OpusProps.C05']
 GEN = ['EncTables']
-SOURCES = ['src/opus_encoder.c', 'src/repacketizer.c', 'src/opus.c', 'src/opus_private.h', 'src/opus_multistream_encoder.c',
+SOURCES = ['celt/celt.h', 'src/opus_encoder.c', 'src/repacketizer.c', 'src/opus.c', 'src/opus_private.h', 'src/opus_multistream_encoder.c',
            'src/opus_projection_encoder.c', 'src/analysis.c', 'celt/celt_encoder.c', 'celt/entenc.c', 'celt/entcode.h',
            'silk/enc_API.c', 'silk/control.h', 'silk/define.h', 'include/opus.h', 'include/opus_defines.h']
 RULE = ('wrapped real encoder (harness #includes src/opus_encoder.c and records every inner call): random ctl/encode '
@@ -23,8 +23,8 @@ NOT_COVERED = ['convergence of the constrained-VBR control loop (signal dependen
                'interiors of silk_Encode / celt_encode_with_ec / the range coder: oracles under the contracts of '
                'OpusModel/EncSkel/Frame.lean (monitored on every recorded call); that they write only inside the buffer handed to '
                'them is checked by ASan / guard bytes on explored inputs only',
-               'multistream per-stream split: the per-stream encoder calls are covered by the skeleton, the split arithmetic of '
-               'opus_multistream_encode_native only by the search oracle (ret <= max_data_bytes, CBR total size, guard bytes)',
+               'multistream: rate_allocation (which bit-rate each stream gets) and the surround masking analysis are not modelled; the '
+               'per-stream budget split is (msCurrMax / msMaxBytes, theorem ms_encode_ret_le_out, tie op mscurr2)',
                'DRED / QEXT / fixed-point builds are not compiled in this configuration']
 ASSUMPTIONS = ['the data pointer addresses out_data_bytes writable bytes and pcm holds frame_size*channels samples',
                'settings reach the encoder only through opus_encoder_ctl (stOk: the C11 ctl invariant), frame sizes through '
@@ -36,11 +36,15 @@ TRUSTED = ['oracle contracts of OpusModel/EncSkel/Frame.lean (silk_Encode return
            'repacketiser contract functions of OpusModel/EncSkel/Repack.lean (return values and header bytes compared with the '
            'real opus_packet_pad / opus_repacketizer_cat / out_range_impl on every recorded call)']
 REQUIRED_THEOREMS = ['OpusProps.C05.' + t for t in (
-    'cbrBytes_spec', 'ret_le_out', 'cbr_size_exact', 'bitrate_max_fills', 'too_small_clean', 'never_internal_error')]
-UNPROVED = ['cvbr_reservoir_bounded (design priority P2): boundedness of the integer reservoir recursion of '
-            'celt_encoder.c:2350-2367 — not modelled; CVBR is covered by the calibrated search only',
-            'range lemmas "no 32-bit overflow" for the budget arithmetic (model uses unbounded Int; products stay below 2^31 for '
-            'Fs <= 48000, bit-rate <= 1.5e6, out_data_bytes clamped to 1276 — covered by UBSan on explored inputs only)']
+    'cbrBytes_spec', 'ret_le_out', 'cbr_size_exact', 'bitrate_max_fills', 'too_small_clean', 'never_internal_error',
+    'stOk_preserved', 'stOk_along_histories', 'encode_keeps_encInv', 'ms_encode_ret_le_out', 'cvbr_reservoir_bounded',
+    'cvbr_average_bound')]
+UNPROVED = ['range lemmas "no 32-bit overflow" for the budget arithmetic (model uses unbounded Int; products stay below 2^31 for '
+            'Fs <= 48000, bit-rate <= 1.5e6, out_data_bytes clamped to 1276 — covered by UBSan on explored inputs only)',
+            'that the float-driven CVBR target makes the average APPROACH the requested rate (only the upper bound '
+            'cvbr_average_bound is a theorem; CELT-only frames; hybrid frames run unconstrained by design)',
+            'ms_encode_ret_le_out for CBR with OPUS_AUTO assumes the allocated rate is worth smallest_packet bytes '
+            '(rate_allocation is float-free but not modelled)']
 CAL = json.load(open(os.path.join(common.VERIF, 'tools', 'calibration_C05.json')))
 SAN_EXTRA = ['-fno-sanitize=float-cast-overflow']   # DESIGN §9 O1: (int)floor(NaN) at opus_encoder.c:1226 is benign
 
@@ -69,6 +73,8 @@ def ties(ctx):
     if not q:
         out.append(common.run_tie('encskel-bound', [hs, 'bound', str(s), '1']))
     out.append(common.run_tie('encskel-ms', [hs, 'ms', str(s), '120' if q else '1500']))
+    out.append(common.run_tie('encskel-mssweep', [_h(ctx, 'plain'), 'mssweep', str(s), '0' if q else '1']))
+    out.append(common.run_tie('encskel-cvbr', [_h(ctx, 'san', 'c05_cvbr'), 'run', str(s), '60' if q else '1200']))
     out.append(common.run_tie('encskel-silkrate', [hs, 'silkrate']))
     out.append(common.run_tie('encskel-gentoc', [hs, 'gentoc']))
     if not q:
@@ -280,12 +286,16 @@ def replay(ctx, obj):
 
 LEVEL_TEXT = ('proof of the size skeleton, partial for the property: Lean model of the byte accounting of opus_encode_native / '
               'opus_encode_frame_native (budget, cbr_bytes, low-budget path, decision chain, multi-frame split, redundancy bytes, '
-              'trailing-zero strip, padding) with SILK/CELT/range coder as contract-bound oracles; kernel-checked for all oracle '
+              'trailing-zero strip, padding), of the multistream per-stream budget split and of the CELT constrained-VBR reservoir, '
+              'with SILK/CELT/range coder as contract-bound oracles; kernel-checked for all oracle '
               'behaviours, settings, frame sizes and out_data_bytes: cbr_bytes = min(round(b*T/8), max) over Q, 1 <= ret <= '
               'out_data_bytes, exact CBR size on every path, BITRATE_MAX fills, too-small buffers give BUFFER_TOO_SMALL or a '
-              'ToC-only packet, no INTERNAL_ERROR / assertion site reachable; tied to the code by replaying every recorded real '
+              'ToC-only packet, no INTERNAL_ERROR / assertion site reachable; stOk (the ctl/decision-chain invariant the theorems assume) is preserved by '
+              'every call and holds along every history from opus_encoder_create through any ctl requests (bridge to C11 EncInv '
+              'by an explicit refinement map); multistream: every stream gets a legal budget and ret <= max_data_bytes; CVBR '
+              'reservoir in [0, vbr_rate] and 64*sum(bytes) <= (N+1)*vbr_rate; tied to the code by replaying every recorded real '
               'call (return value, packet structure, post-state, inner calls) under ASan/UBSan; CVBR average only searched')
 LEVEL_NOTE = ('trusted: Lean kernel; oracle contracts on silk_Encode / celt_encode_with_ec / ec_tell (monitored at run time, not '
               'proved); repacketiser contract (C07 proves the repacketiser itself); the harness that wraps inner calls by macro '
-              'redirection; unbounded Int for C int. Not proved: CVBR loop convergence, multistream split arithmetic.')
+              'redirection; unbounded Int for C int. Not proved: CVBR convergence towards the target (only the upper bound), multistream rate allocation.')
 TECHNIQUE = 'Lean 4 theorems over an executable skeleton with contract-bound oracles + differential replay of recorded real calls'
